@@ -176,9 +176,23 @@ let finish_case (out : string list) =
          | IErr p when not (in_input p) -> Some ("error position outside the input: " ^ string_of_pos p)
          | _ -> None
        in
+       (* byte sweep: a valid rune >= 128 comes with its class as the harness computed it with
+          unicode.IsLetter / IsDigit directly; the tables of the UNI lines (the model's oracle) must say the same *)
+       let field p = List.find_map (fun s ->
+           let n = String.length p in
+           if String.length s > n && String.sub s 0 n = p then Some (String.sub s n (String.length s - n)) else None) !cur_extra in
+       let table_ok =
+         match (field "rune=", field "cls=") with
+         | Some r, Some c ->
+             let z = z_of_hex r in
+             c = (if is_letter_hi z then "L" else if is_digit_hi z then "D" else "O")
+         | _ -> true
+       in
        (match clause with
         | Some c -> Printf.printf "PFAIL %s || clause=%s ; %s\n" obs c model_info
-        | None -> if not agrees then Printf.printf "DISAGREE %s || %s\n" obs model_info)
+        | None ->
+            if not agrees then Printf.printf "DISAGREE %s || %s\n" obs model_info
+            else if not table_ok then Printf.printf "DISAGREE %s || the UNI tables given to the model classify the inserted rune differently from unicode.IsLetter/IsDigit\n" obs)
    | md -> failwith ("unknown mode " ^ md));
   xlines := [];
   alines := []
@@ -200,6 +214,7 @@ let handle line =
         xlines := [];
         alines := []
     | "OUT" :: out -> finish_case out
+    | [ "COV"; kind ] -> note_case ~nontrivial:false kind ""
     | [ "NUM"; s; f; u; a ] ->
         let b = bytes_of_s s in
         let mf = opt_hex (parse_float b) in
